@@ -189,6 +189,23 @@ def run(tier):
             if found:
                 addr_bad.append(found)
             rep.count("index tuples checked", rep.analysed.get("index tuples checked", 0) + checked)
+    # the walk over the image itself: no adaptor that lets elements fall out stands between the image and the record loop
+    dropping = []
+    import writers as W_
+    for k_ in W_.family(P, fn) if hasattr(W_, "family") else [fn]:
+        for bb_, t_, n_, tg_ in P.call_sites(k_):
+            rp_ = MU.callee_names(t_)[1]
+            if re.search(r"Iterator::(filter|filter_map|skip|skip_while|take|take_while|step_by|flat_map|scan|map_while)$", rp_):
+                dropping.append("%s in %s" % (rp_.split("::")[-1], k_.split("::")[-1]))
+    # and the index a record's address is computed from counts the chunks themselves: nothing but chunks() in front of enumerate()
+    for p_ in oks:
+        for ev in p_.events:
+            if ev[0] == 'iter-next':
+                ads = [a[0] for a in ev[2]]
+                if "enumerate" in ads and any(a not in ("chunks",) for a in ads[:ads.index("enumerate")]):
+                    dropping.append("%s in front of enumerate()" % "/".join(a for a in ads[:ads.index("enumerate")] if a != "chunks"))
+    if dropping:
+        missing.append("the walk over the image goes through %s: chunks can fall out before the record loop sees them" % ", ".join(sorted(set(dropping))))
     rep.ob("C07.eof", not eof_bad, "every path ends its record list with exactly one EndOfFile" if not eof_bad else
            "EndOfFile discipline violated: record lists %s" % eof_bad[:2])
     rep.ob("C07.complete", not missing, "every 16-byte chunk the record loop takes from the image is written as one Data record (no path skips a chunk)" if not missing else
